@@ -7,7 +7,7 @@
 (***************************************************************************)
 EXTENDS Integers, Sequences, FiniteSets, TLC
 
-CONSTANTS Literals,     \* sequence of array literals (sequences of tokens / "hole") for the initial state
+CONSTANTS Literals,     \* sequence of initial arrays [c |-> "lit" | "new" | "len", els |-> <<token | "hole">>, n |-> length]
           OpsSeq,       \* sequence of operation records (the alphabet)
           GetterCap
 
@@ -33,7 +33,7 @@ A == INSTANCE ArrayAlgo WITH ElHas <- AHas, ElGet <- AGet, ElPut <- APut, ElDel 
 AsLike(o) == [o EXCEPT !.arr = FALSE, !.sk = <<>>]
 
 ----------------------------------------------------------------------------
-Init == \E n \in 1..Len(Literals) : obj = A!Literal(Literals[n])
+Init == \E n \in 1..Len(Literals) : obj = A!Create(Literals[n])
 Next == \E n \in 1..Len(OpsSeq) : obj' = A!Apply(obj, OpsSeq[n]).o
 Spec == Init /\ [][Next]_obj
 
